@@ -371,3 +371,340 @@ def transform_rows(ctx):
             okm = lo.eq(nlp * ELEM) and not any(at == S[0].loops[0].target.elts[0].id for at in nlp.atoms())
             whym = "point rows are arange(%s, %s): must be [nlp*element, nlp*(element+1)) with the element NUMBER" % (unparse(S[0].vnode.args[0]), unparse(S[0].vnode.args[1]))
         r.check(okm, "%s::map_space_to_points_impl" % rel.split("/")[-1], rel, "map_space_to_points_impl", fn.lineno, "row convention of map_space_to_points_impl (%s)" % rel.split("/")[-1], whym)
+
+
+# ---------------------------------------------------------------- Maxwell and potential evaluators as NC terms
+
+
+class _Comp:
+    """Values with one NC term per column (the 4 columns of fmm_interface.evaluate, a slice of them, or a stacked triple)."""
+
+    def __init__(self, cols):
+        self.cols = list(cols)
+
+
+class _ClosureEval:
+    """Straight-line interpretation of an FMM evaluator closure into NC terms.  Supported: assignments, += / -= / *=,
+    `for i in range(3)` (unrolled), list literals, fmm_interface.evaluate(v) (-> 4 columns E_c v), column selection,
+    hstack/vstack of columns, reshape/.T (shape only), @ and * with scalars."""
+
+    def __init__(self, leaves, Ec):
+        self.env = dict(leaves)
+        self.Ec = Ec
+
+    def run(self, fn):
+        try:
+            self.block(fn.body)
+        except _Return as r:
+            return r.v
+        raise AnalysisError("evaluator closure %s has no return" % fn.name)
+
+    def block(self, body):
+        for st in body:
+            if isinstance(st, ast.Expr) and isinstance(st.value, ast.Constant):
+                continue
+            if isinstance(st, ast.Assign) and len(st.targets) == 1 and isinstance(st.targets[0], ast.Name):
+                self.env[st.targets[0].id] = self.ev(st.value)
+            elif isinstance(st, ast.AugAssign) and isinstance(st.target, ast.Name) and isinstance(st.op, (ast.Add, ast.Sub, ast.Mult)):
+                cur, v = self.env[st.target.id], self.ev(st.value)
+                self.env[st.target.id] = self.arith(type(st.op), cur, v)
+            elif isinstance(st, ast.For) and isinstance(st.target, ast.Name) and isinstance(st.iter, ast.Call) and unparse(st.iter.func) == "range" and len(st.iter.args) == 1 \
+                    and isinstance(st.iter.args[0], ast.Constant):
+                for i in range(st.iter.args[0].value):
+                    self.env[st.target.id] = i
+                    self.block(st.body)
+            elif isinstance(st, ast.Return):
+                raise _Return(self.ev(st.value))
+            else:
+                raise AnalysisError("evaluator closure: unsupported statement `%s`" % unparse(st)[:60])
+
+    def arith(self, op, a, b):
+        if isinstance(a, _Comp) or isinstance(b, _Comp):
+            if isinstance(a, _Comp) and isinstance(b, _Comp):
+                if len(a.cols) != len(b.cols) or op is ast.Mult:
+                    raise AnalysisError("evaluator closure: column-wise operation on different shapes")
+                return _Comp([self.arith(op, x, y) for x, y in zip(a.cols, b.cols)])
+            if op in (ast.Mult, ast.MatMult):
+                return _Comp([self.arith(op, a, y) for y in b.cols]) if isinstance(b, _Comp) else _Comp([self.arith(op, x, b) for x in a.cols])
+            raise AnalysisError("evaluator closure: sum of a column block and a vector")
+        if not (isinstance(a, NC) and isinstance(b, NC)):
+            raise AnalysisError("evaluator closure: arithmetic on non-terms")
+        return a + b if op is ast.Add else a - b if op is ast.Sub else a * b
+
+    def ev(self, n):
+        if isinstance(n, ast.Name):
+            if n.id in self.env:
+                return self.env[n.id]
+            raise AnalysisError("evaluator closure: unknown name %s" % n.id)
+        if isinstance(n, ast.Constant):
+            if isinstance(n.value, complex) and n.value == 1j:
+                return NC.scalar("i")
+            if isinstance(n.value, (int, float)) and not isinstance(n.value, bool) and n.value == int(n.value):
+                return NC.const(int(n.value))
+            raise AnalysisError("evaluator closure: constant %r" % (n.value,))
+        if isinstance(n, ast.UnaryOp) and isinstance(n.op, ast.USub):
+            return self.arith(ast.Mult, NC.const(-1), self.ev(n.operand))
+        if isinstance(n, ast.BinOp):
+            if isinstance(n.op, ast.Div):
+                a, b = self.ev(n.left), self.ev(n.right)
+                if not isinstance(b, NC):
+                    raise AnalysisError("evaluator closure: division by a non-scalar")
+                return self.arith(ast.Mult, a, b.inv_scalar())
+            if isinstance(n.op, (ast.Add, ast.Sub, ast.Mult, ast.MatMult)):
+                return self.arith(ast.Mult if isinstance(n.op, ast.MatMult) else type(n.op), self.ev(n.left), self.ev(n.right))
+        if isinstance(n, ast.List):
+            return [self.ev(x) for x in n.elts]
+        if isinstance(n, ast.ListComp) and len(n.generators) == 1 and isinstance(n.generators[0].target, ast.Name) and not n.generators[0].ifs:
+            it = n.generators[0].iter
+            if isinstance(it, (ast.Tuple, ast.List)) and all(isinstance(e, ast.Constant) and isinstance(e.value, int) for e in it.elts):
+                vals = [e.value for e in it.elts]
+            elif isinstance(it, ast.Call) and unparse(it.func) == "range" and len(it.args) == 1 and isinstance(it.args[0], ast.Constant):
+                vals = list(range(it.args[0].value))
+            else:
+                raise AnalysisError("evaluator closure: comprehension over a non-literal range")
+            out, var = [], n.generators[0].target.id
+            saved = self.env.get(var)
+            for v in vals:
+                self.env[var] = v
+                out.append(self.ev(n.elt))
+            if saved is None:
+                self.env.pop(var, None)
+            else:
+                self.env[var] = saved
+            return out
+        if isinstance(n, ast.Attribute) and n.attr == "T":
+            return self.ev(n.value)
+        if isinstance(n, ast.Subscript):
+            base = self.ev(n.value)
+            sl = n.slice
+            if isinstance(base, list):
+                i = self.ev_int(sl)
+                return base[i]
+            if isinstance(sl, ast.Tuple) and len(sl.elts) == 2 and isinstance(sl.elts[0], ast.Slice) and sl.elts[0].lower is None and sl.elts[0].upper is None:
+                c = sl.elts[1]
+                if isinstance(base, _Comp):
+                    if isinstance(c, ast.Slice):
+                        lo = self.ev_int(c.lower) if c.lower is not None else 0
+                        hi = self.ev_int(c.upper) if c.upper is not None else len(base.cols)
+                        return _Comp(base.cols[lo:hi])
+                    return base.cols[self.ev_int(c)]
+            raise AnalysisError("evaluator closure: unsupported subscript %s" % unparse(n)[:60])
+        if isinstance(n, ast.Call):
+            f = unparse(n.func)
+            if f == "fmm_interface.evaluate" and len(n.args) == 1:
+                v = self.ev(n.args[0])
+                if not isinstance(v, NC):
+                    raise AnalysisError("evaluator closure: FMM applied to a non-vector")
+                return _Comp([e * v for e in self.Ec])
+            if isinstance(n.func, ast.Attribute) and n.func.attr == "reshape":
+                return self.ev(n.func.value)
+            if f.split(".")[-1] == "zeros":
+                return NC()
+            if f.split(".")[-1] in ("hstack", "vstack") and len(n.args) == 1 and isinstance(n.args[0], ast.List):
+                cols = [self.ev(x) for x in n.args[0].elts]
+                if len(cols) == 1 and isinstance(cols[0], _Comp):
+                    return cols[0]
+                flat = []
+                for c in cols:
+                    flat += c.cols if isinstance(c, _Comp) else [c]
+                return _Comp(flat)
+        raise AnalysisError("evaluator closure: expression outside the term subset: %s" % unparse(n)[:70])
+
+    def ev_int(self, n):
+        if isinstance(n, ast.Constant) and isinstance(n.value, int):
+            return n.value
+        if isinstance(n, ast.Name) and isinstance(self.env.get(n.id), int):
+            return self.env[n.id]
+        raise AnalysisError("evaluator closure: non-literal index %s" % unparse(n))
+
+
+class _Return(Exception):
+    def __init__(self, v):
+        self.v = v
+
+
+def _transform_bindings(maker, space_roles):
+    """Bind the local names of a make_maxwell_* function to letters by what they are computed from:
+    compute_rwg_basis_transform(S, order) -> (R(S), R(S)^T per component), compute_rwg_div_transform(S, order) -> (D(S), D(S)^T).
+    space_roles maps the maker's space parameters to 'dom' / 'dual'.  Returns ({name: value}, problems)."""
+    defs = roles.Defs(maker)
+    S = roles.stores(maker.body, defs, lv=False)
+    env, problems = {}, []
+    guard_diff = None
+    for s in S:
+        if s.op != "=" or not isinstance(s.vnode, ast.Call) or s.loops:
+            continue
+        f = unparse(s.vnode.func)
+        if f not in ("compute_rwg_basis_transform", "compute_rwg_div_transform"):
+            continue
+        sp = unparse(s.vnode.args[0])
+        role = space_roles.get(sp)
+        if role is None:
+            problems.append("%s computed for unknown space `%s`" % (f, sp))
+            continue
+        tg = s.node.targets[0]
+        if not (isinstance(tg, ast.Tuple) and len(tg.elts) == 2 and all(isinstance(e, ast.Name) for e in tg.elts)):
+            problems.append("result of %s is not unpacked into (map, transposed map)" % f)
+            continue
+        if s.guards:
+            # only: `if domain != dual_to_range:` re-deriving the TEST side from the dual space
+            names = sorted(space_roles)
+            ok_guard = len(s.guards) == 1 and s.guards[0][1] is True and s.guards[0][0].replace(" ", "") in ("(%s NotEq %s)" % (names[0], names[1]), "(%s NotEq %s)" % (names[1], names[0]))
+            ok_guard = ok_guard or (len(s.guards) == 1 and s.guards[0][1] is True and "NotEq" in s.guards[0][0] and all(nm in s.guards[0][0] for nm in names))
+            if not ok_guard or role != "dual":
+                problems.append("conditional transform for `%s` under %s" % (sp, s.guards))
+                continue
+            guard_diff = True
+        kind = "R" if f.endswith("basis_transform") else "D"
+        fwd, tr = tg.elts[0].id, tg.elts[1].id
+        if kind == "R":
+            vals = ([NC.op("R%d[%s]" % (c, role)) for c in range(3)], [NC.op("Rt%d[%s]" % (c, role)) for c in range(3)])
+        else:
+            vals = (NC.op("D[%s]" % role), NC.op("Dt[%s]" % role))
+        if fwd != "_":
+            env[fwd] = vals[0]
+        if tr != "_":
+            env[tr] = vals[1]
+    return env, problems, guard_diff
+
+
+def maxwell_terms(ctx):
+    """Maxwell boundary evaluators and all potential evaluators equal the operator terms of the dense integrands
+    (assemblers.integrand specs): E = -ik sum_c Rt_c G R_c - (ik)^-1 Dt G D,  H = -sum_c Rt_c (grad_x G x R)_c, each + singular
+    part; potentials SL = G S, DL = -sum_i d_i G Ns_i S, E-pot_c = ik G R_c - (ik)^-1 d_c G D, H-pot = grad_x G x R."""
+    r = ctx.rule("FMM-MAXWELL-TERMS", "Maxwell FMM boundary evaluators and the FMM potential evaluators compute the operator terms of the dense integrands (test-side maps from dual_to_range when the spaces differ)", 6)
+    m = ctx.repo.mod(FA)
+    x = NC.op("x")
+    Ec = [NC.op("E%d" % c) for c in range(4)]
+    i_, k = NC.scalar("i"), NC.scalar("k")
+    ik = i_ * k
+    eps = {(0, 1, 2): 1, (1, 2, 0): 1, (2, 0, 1): 1, (0, 2, 1): -1, (2, 1, 0): -1, (1, 0, 2): -1}
+
+    def closure(maker):
+        cl = [n for n in maker.body if isinstance(n, ast.FunctionDef)]
+        if len(cl) != 1:
+            raise AnalysisError("%s: expected one evaluator closure" % maker.name)
+        return cl[0]
+
+    def wavenumber_leaves(maker):
+        out = {}
+        for st in maker.body:
+            if isinstance(st, ast.Assign) and isinstance(st.targets[0], ast.Name):
+                t = unparse(st.value).replace(" ", "")
+                d = arg_names(maker)[0]
+                if t in ("%s.options[0]+1j*%s.options[1]" % (d, d), "%s.options[0]+%s.options[1]*1j" % (d, d)):
+                    out[st.targets[0].id] = k
+        return out
+
+    # ---- boundary operators
+    for fname, kind in (("make_maxwell_electric_field_boundary", "E"), ("make_maxwell_magnetic_field_boundary", "H")):
+        maker = m.fn(fname)
+        pa = arg_names(maker)
+        env, problems, cond = _transform_bindings(maker, {pa[2]: "dom", pa[3]: "dual"})
+        env.update(wavenumber_leaves(maker))
+        env["x"] = x
+        sing = [st.targets[0].id for st in maker.body if isinstance(st, ast.Assign) and isinstance(st.targets[0], ast.Name)
+                and unparse(st.value).replace(" ", "") == "%s.singular_part.weak_form().to_sparse()" % pa[0]]
+        for nm in sing:
+            env[nm] = NC.op("Sing")
+        cl = closure(maker)
+        env[arg_names(cl)[0]] = x
+        # with equal spaces the domain's transposed maps serve as test maps; otherwise they must be recomputed from dual_to_range
+        for variant in ("same", "different"):
+            e2 = dict(env)
+            if variant == "same":
+                # names bound to the dual role only under the `!=` guard fall back to the domain's transposes
+                d2, _, _ = _transform_bindings_unguarded(maker, {pa[2]: "dom", pa[3]: "dual"})
+                e2.update(d2)
+                role_t = "dom"
+            else:
+                role_t = "dual"
+            Rt = [NC.op("Rt%d[%s]" % (c, role_t)) for c in range(3)]
+            R = [NC.op("R%d[dom]" % c) for c in range(3)]
+            Dt, D = NC.op("Dt[%s]" % role_t), NC.op("D[dom]")
+            if kind == "E":
+                want = NC()
+                for c in range(3):
+                    want = want - ik * Rt[c] * Ec[0] * R[c] * x
+                want = want - ik.inv_scalar() * Dt * Ec[0] * D * x + NC.op("Sing") * x
+            else:
+                want = NC.op("Sing") * x
+                for (c, a, b), sg in eps.items():
+                    want = want - NC.const(sg) * Rt[c] * Ec[1 + a] * R[b] * x
+            try:
+                got = _ClosureEval(e2, Ec).run(cl)
+                ok, msg = isinstance(got, NC) and got == want and not problems, "%s (%s spaces) computes %r, expected %r%s" % (fname, variant, got, want, "; " + "; ".join(problems) if problems else "")
+            except AnalysisError as e:
+                ok, msg = False, str(e)
+            r.check(ok, "%s [%s spaces]" % (fname, variant), FA, fname, cl.lineno, "fmm term of %s (%s spaces)" % (fname, variant), msg)
+    # ---- potentials
+    for fname, kind in (("make_maxwell_electric_field_potential", "E"), ("make_maxwell_magnetic_field_potential", "H")):
+        maker = m.fn(fname)
+        pa = arg_names(maker)
+        env, problems, _ = _transform_bindings(maker, {pa[2]: "dom"})
+        env.update(wavenumber_leaves(maker))
+        cl = closure(maker)
+        env[arg_names(cl)[0]] = x
+        R = [NC.op("R%d[dom]" % c) for c in range(3)]
+        D = NC.op("D[dom]")
+        if kind == "E":
+            want = [ik * Ec[0] * R[c] * x - ik.inv_scalar() * Ec[1 + c] * D * x for c in range(3)]
+        else:
+            want = [NC() for _ in range(3)]
+            for (c, a, b), sg in eps.items():
+                want[c] = want[c] + NC.const(sg) * Ec[1 + a] * R[b] * x
+        try:
+            got = _ClosureEval(env, Ec).run(cl)
+            ok = isinstance(got, _Comp) and len(got.cols) == 3 and all(g == w for g, w in zip(got.cols, want)) and not problems
+            msg = "%s computes %r, expected %r" % (fname, got.cols if isinstance(got, _Comp) else got, want)
+        except AnalysisError as e:
+            ok, msg = False, str(e)
+        r.check(ok, fname, FA, fname, cl.lineno, "fmm term of " + fname, msg)
+    # scalar potentials
+    maker = m.fn("make_default_scalar_potential")
+    pa = arg_names(maker)
+    S_ = NC.op("S")
+    Ns = [NC.op("Ns%d" % c) for c in range(3)]
+    leaves = {"x": x}
+    for st in maker.body:
+        if isinstance(st, ast.Assign) and isinstance(st.targets[0], ast.Name):
+            v = st.value
+            if isinstance(v, ast.Call) and unparse(v.func) == "%s.map_to_points" % pa[2]:
+                leaves[st.targets[0].id] = S_
+            if isinstance(v, ast.Call) and unparse(v.func) == "get_normals" and unparse(v.args[0]) == pa[2]:
+                leaves[st.targets[0].id] = _Comp(Ns)
+    cls = {n.name: n for n in maker.body if isinstance(n, ast.FunctionDef)}
+    want = {"evaluate_single_layer": Ec[0] * S_ * x, "evaluate_double_layer": NC() - (Ec[1] * Ns[0] + Ec[2] * Ns[1] + Ec[3] * Ns[2]) * S_ * x}
+    for name, w in want.items():
+        if name not in cls:
+            raise AnalysisError("make_default_scalar_potential lost closure %s" % name)
+        env = dict(leaves)
+        env[arg_names(cls[name])[0]] = x
+        try:
+            got = _ClosureEval(env, Ec).run(cls[name])
+            ok, msg = isinstance(got, NC) and got == w, "%s computes %r, expected %r" % (name, got, w)
+        except AnalysisError as e:
+            ok, msg = False, str(e)
+        r.check(ok, "make_default_scalar_potential." + name, FA, "make_default_scalar_potential", cls[name].lineno, "fmm term of potential " + name, msg)
+
+
+def _transform_bindings_unguarded(maker, space_roles):
+    """Bindings from the unguarded transform computations only (what holds when domain == dual_to_range)."""
+    defs = roles.Defs(maker)
+    env = {}
+    for s in roles.stores(maker.body, defs, lv=False):
+        if s.op != "=" or not isinstance(s.vnode, ast.Call) or s.loops or s.guards:
+            continue
+        f = unparse(s.vnode.func)
+        if f not in ("compute_rwg_basis_transform", "compute_rwg_div_transform"):
+            continue
+        role = space_roles.get(unparse(s.vnode.args[0]))
+        tg = s.node.targets[0]
+        if role is None or not (isinstance(tg, ast.Tuple) and len(tg.elts) == 2):
+            continue
+        kind = "R" if f.endswith("basis_transform") else "D"
+        vals = ([NC.op("R%d[%s]" % (c, role)) for c in range(3)], [NC.op("Rt%d[%s]" % (c, role)) for c in range(3)]) if kind == "R" else (NC.op("D[%s]" % role), NC.op("Dt[%s]" % role))
+        for e, v in zip(tg.elts, vals):
+            if isinstance(e, ast.Name) and e.id != "_":
+                env[e.id] = v
+    return env, [], None
